@@ -1,0 +1,13 @@
+//go:build verif
+
+package balance
+
+import "time"
+
+// VerifDrain blocks until every task submitted to the processor's worker pool has finished
+// (the pool is released and rebooted). Used by the external conformance harness (/verif, family
+// irproc) to observe the chain calls of one event deterministically.
+func (bp *Processor) VerifDrain() {
+	_ = bp.pool.ReleaseTimeout(time.Minute)
+	bp.pool.Reboot()
+}
